@@ -88,12 +88,21 @@ def dimlit(key):
 
 
 def rdms(n_rdm=None, mixed=False, perm=False, single=False, p_inv=False, weights=False,
-         conds_name='cond', cont=None):
+         conds_name='cond', cont=None, nans=False):
     def prov(draw, dims):
         nr = 1 if single else (n_rdm or dims['n_rdm'])
         nc = dims['n_cond']
         shift = -8.0 if (mixed and draw(st.booleans())) else 0.0
         vals = _embedded(draw, nr, nc, shift=shift)
+        if nans and draw(st.booleans()):
+            # missing dissimilarities at generated positions (per RDM, never a whole RDM)
+            for row in vals:
+                hide = draw(st.lists(st.booleans(), min_size=len(row), max_size=len(row)))
+                if all(hide):
+                    hide[0] = False
+                for k, h in enumerate(hide):
+                    if h:
+                        row[k] = float('nan')
         cond = list(dims['cond'])
         if perm:
             order = draw(gen.permutation(nc))
@@ -443,7 +452,7 @@ _PD = ['cond', 'cat']
 spec('rdm.rdms.RDMs.__getitem__', idx=index_of('self'))
 spec('rdm.rdms.RDMs.__eq__', other=R)
 # (a descriptor name as weights raises on the pinned tree: C13's defect #17)
-spec('rdm.rdms.RDMs.mean', _max_reject=0.6, self=rdms(weights=True),
+spec('rdm.rdms.RDMs.mean', _max_reject=0.6, self=rdms(weights=True, nans=True),
      weights=one_of(const(None), array(('n_rdm', lambda d: n_pairs(d['n_cond'])), 1, 8, 4.0),
                     array(('n_rdm', lambda d: n_pairs(d['n_cond'])), 1, 8, 4.0), const('w')))
 for _m in ('subset', 'subsample'):
